@@ -167,6 +167,14 @@ class StreamSession:
             wire_stream_logger.debug("Stream exchange: sending input")
         try:
             self._write_batch(input)
+        except pa.ArrowInvalid as exc:
+            # pyarrow refused the batch itself (typically: its schema differs
+            # from the one this input stream was opened with) before writing
+            # any of it.  The transport is intact, so end the stream properly;
+            # just marking the session closed would leave the server waiting
+            # for input and make it misread the next call on the connection.
+            self.close()
+            raise RpcError("TransportError", f"Transport failed during stream exchange (write): {exc}", "") from exc
         except _TRANSPORT_ERRORS as exc:
             # Set _closed directly — calling close() would attempt I/O on the broken transport.
             self._closed = True
